@@ -18,8 +18,11 @@ func init() {
 			"(2) NewCandidate succeeds only after ¬queue.HasAny, ValidateNodeDisruptable==nil, pool and instance-type map found, and ValidatePodsDisruptable's error is nil — or a PodBlockEvictionError ignored only under TerminationGracePeriod≠nil ∧ class==Eventual; " +
 			"(3) ValidateNodeDisruptable returns nil only under its seven literals (managed, has node, initialized, not marked/deleting, not nominated, annotation ≠ true, has nodepool label), ValidatePodsDisruptable only when every pod IsDisruptable and PDBs allow eviction; " +
 			"(4) each method's ShouldDisrupt implies its documented literals (static/dynamic pool, ConsolidateAfter set, buffer pods, IsEmpty, policy ≠ WhenEmpty, Consolidatable / Drifted); only Drift and StaticDrift are Eventual; " +
-			"(5) Consolidatable is set true only when consolidateAfter is set, the NodeClaim is Initialized and not under the consolidateAfter window, and that window compares clock.Since(lastPodEvent|initialized) with consolidateAfter.",
-		NotCovered: []string{"freshness of the state the predicates read (narrowed only by the re-validation rows of C05/C06)", "PDB arithmetic inside pdb.Limits", "values of duration annotations"},
+			"(5) Consolidatable is set true only when consolidateAfter is set, the NodeClaim is Initialized and not under the consolidateAfter window, and that window compares clock.Since(lastPodEvent|initialized) with consolidateAfter; " +
+			"(6) the nomination window is restarted by every nomination: StateNode.Nominate always stores now + nominationWindow, Cluster.NominateNodeForPod reaches it for every provider id it knows (no 'already nominated' shortcut), and Results.Record nominates every existing node that received a real pod; " +
+			"(7) a node that became protected during the validation delay leaves the command: every validator's successful result carries exactly the candidates that passed its re-validation, and every method returns the validator's command (or its own when its wired validator returns its input) — VALID1/VALID2, shared with C05.",
+		NotCovered: []string{"freshness of the state the predicates read (narrowed only by the re-validation rows of C05/C06)", "PDB arithmetic inside pdb.Limits", "values of duration annotations",
+			"validators injected through WithValidator by callers other than the method constructors", "callers of Results.Record (that every scheduling pass whose results are acted upon is recorded)"},
 		Rules:      c07Rules,
 	})
 }
@@ -27,6 +30,9 @@ func init() {
 func c07Rules(tier string) []Rule {
 	rules := c07RulesBase(tier)
 	rules = append(rules, nodePodsRules("C07")...)
+	// a node that became protected during the validation delay is dropped by the validators' re-validation; that only helps
+	// if the command that leaves the validation step is the one the validator returned: shared_A.go
+	rules = append(rules, validatedCommandRules("C07")...)
 	return rules
 }
 
@@ -91,6 +97,17 @@ func c07RulesBase(tier string) []Rule {
 		core.Custom{ID: "C07.PROV3", Kind: "PROV", Run: func(w *core.World, id string) []core.Result {
 			return core.InstrPresent(w, id, "PROV", "(*state.StateNode).Nominate", `^store &local<metav1\.Time>\.Time = \(time\.Time\)\.Add\(iface:\(k8s\.io/utils/clock\.PassiveClock\)\.Now\(\$2\), state\.nominationWindow\(\)\)$`, 1, "nominatedUntil = now + nominationWindow")
 		}},
+		// …and the cluster-level entry point hands every nomination of a node it knows on to StateNode.Nominate: the only way
+		// to leave NominateNodeForPod without (re)starting the window is that the provider id is not in the state. A shortcut
+		// for "already nominated" would let the window run out while pods keep being placed on the node (ValidateNodeDisruptable
+		// and the validators' IsNodeNominated read nominatedUntil as "time of the LAST nomination + window").
+		POST{ID: "C07.POST3", Fn: "(*state.Cluster).NominateNodeForPod", From: "", Must: []string{`^call \(\*state\.StateNode\)\.Nominate\(\$0\.nodes\[\$2\](#0)?, \$0\.clock\)$`},
+			Excuse: []string{`-^\$0\.nodes\[\$2\]#1$`, `+^\$0\.nodes\[\$2\] == nil$`}, Note: "a nomination of a known node always reaches StateNode.Nominate (no 'already nominated' shortcut)"},
+		// …and the scheduling results nominate every existing node that received at least one real pod, whatever its current
+		// nomination state (the same shortcut one level up)
+		POST{ID: "C07.POST4", Fn: "(sched.Results).Record", FromLit: `+^len\(lo\.Filter\[\*corev1\.Pod, \[\]\*corev1\.Pod\]\(\$0\.ExistingNodes\[.*\]\.Pods, .*\)\)>=1$`,
+			Must: []string{`^call \(\*state\.Cluster\)\.NominateNodeForPod\(\$3, \(\*state\.StateNode\)\.ProviderID\(\$0\.ExistingNodes\[.*\]\.StateNode\)\)$`},
+			Note: "an existing node that received a real pod is nominated unconditionally"},
 		MPT{ID: "C07.TT1e", Fn: "(*state.StateNode).Nominated", Ret: core.RetFalse, Gates: gates(
 			G(`-^\(time\.Time\)\.After\(\$0\.nominatedUntil\.Time, iface:\(k8s\.io/utils/clock\.PassiveClock\)\.Now\(\$1\)\)$`, `-^\(\*metav1\.Time\)\.After\(`),
 		)},
